@@ -343,11 +343,14 @@ class AnsiString:
             remove_and_add_settings = []
             settings_at_start = self.ansi_settings_at(start)
             for setting in settings_at_start:
-                if setting not in self._fmts[start].add:
+                # Must be compared by reference - an equal setting may start here while another one leads up to here
+                if __class__._find_setting_reference(setting, self._fmts[start].add) < 0:
                     remove_and_add_settings.append(setting)
             if remove_and_add_settings:
                 self._fmts[start].insert_settings(False, remove_and_add_settings)
-                self._fmts[start].insert_settings(True, remove_and_add_settings)
+                # These started earlier, so they go right above the new settings but below whatever starts here
+                num_new = len(ansi_settings)
+                self._fmts[start].add[num_new:num_new] = remove_and_add_settings
 
         # Remove settings
         if end not in self._fmts:
